@@ -69,6 +69,8 @@ def key_header():
         ks[f"ed{i}"] = {"kind": "ed25519", "seed": _ed_seed(i), "via": "raw"}
     for i in range(4):
         ks[f"edp{i}"] = {"kind": "ed25519", "seed": _ed_seed(i, "edp"), "via": "pkcs8"}
+    for i in range(56):
+        ks[f"edx{i}"] = {"kind": "ed25519", "seed": _ed_seed(i, "edx"), "via": "raw"}
     for n in "abc":
         ks[f"ec-{n}"] = {"kind": "pk8", "path": str(KEYS / f"ec-{n}.pk8.der"),
                          "scheme": "ecdsa-sha2-nistp256"}
@@ -85,6 +87,7 @@ def key_header():
 FAST_KEYS = [f"ed{i}" for i in range(8)] + [f"edp{i}" for i in range(4)] + ["ec-a", "ec-b", "ec-c"]
 RSA_KEYS = ["rsa-2048-a", "rsa-2048-b", "rsa-2048-a512", "rsa-2048-b512", "rsa-3072-a", "rsa-4096-a"]
 ALL_KEYS = FAST_KEYS + RSA_KEYS
+CROWD_KEYS = [f"edx{i}" for i in range(56)]      # populations far beyond the ordinary pools (lib/crowd.py)
 
 
 # ----------------------------------------------------------------------------
